@@ -78,6 +78,21 @@ Theorem unload_before_stop_refuted :
 Proof. exact unload_before_stop_refuted_proved. Qed.
 Print Assumptions unload_before_stop_refuted.
 
+(* the generated facts sched_checks_node_loaded (workerPool.scheduleWorker drops a waiting
+   job whose shard left the pool's node map) and can_stream_checks_streaming (node.canStream
+   refuses a stream task while the node is streaming) are needed: without the first a
+   waiting save job runs PrepareSnapshot on a closed state machine, without the second two
+   stream jobs are inside PrepareSnapshot together *)
+Theorem pool_rules_needed :
+  (let st := run (cfg_flip Conc 1 false true) (init 4) stale_job_schedule in
+   closed st = true /\ destroyed st = true /\ calls st = [(2, MPrepare)])
+  /\ calls (run (gen_cfg Conc 1) (init 4) stale_job_schedule) = []
+  /\ (let st := run (cfg_flip Disk 2 true false) (init 5) two_streams_schedule in
+      calls st = [(2, MPrepare); (3, MPrepare)] /\ overlap core core st = true)
+  /\ calls (run (gen_cfg Disk 2) (init 5) two_streams_schedule) = [(2, MPrepare)].
+Proof. exact pool_rules_needed_proved. Qed.
+Print Assumptions pool_rules_needed.
+
 (* ---- the sequential apply path ---- *)
 (* the indexes handed to Update are strictly increasing, for every task queue *)
 Theorem update_indexes_strictly_increasing :
@@ -117,7 +132,8 @@ Example c11_witness :
            [AApLoad; AApIncr; AApCheck; AApStart 0; AThr 0; AThr 0; AThr 0; AThr 0;
             AReaderStart 3 0; AThr 3; AThr 3]) = [(0%nat, MUpdate)]
   /\ calls (run (gen_cfg Plain 1) (init 4)
-           [APoolLoad; APoolIncr; APoolCheck; ASchedule 2 JSave; AThr 2; AThr 2; AThr 2; AThr 2;
+           [AApLoad; AApIncr; AApCheck; ADispatch JSave; APoolLoad; APoolIncr; APoolCheck; ASchedule 2 JSave;
+            AThr 2; AThr 2; AThr 2; AThr 2;
             AReaderStart 3 0; AThr 3; AThr 3; AThr 3; AThr 3]) = [(2%nat, MSave); (3%nat, MLookup)]
   /\ calls_of (handle_tasks (a_start 2 3 true)
         [TEntries [mkEntry 3 KUpdate 7; mkEntry 4 KUpdate 8]; TSave; TEntries [mkEntry 4 KUpdate 8; mkEntry 5 KSkip 0; mkEntry 6 KUpdate 9]])
